@@ -128,15 +128,32 @@ def replay_recip(chk, rs, c, variants):
             chk.drift_note("recip: %s raised %r" % (_cfg_key(c), e))
             continue
         chk.case((_cfg_key(c), prof_kind, prec, src_kind))
-        for k in range(len(c["lv"])):
+        cases = [("", gconc, gflx, dconc, dflx)]
+        # the same identity on lengths that are not exactly representable: the tower still sits on node (jm, im), but
+        # coordinate / cell size need not evaluate to the integer in floating point (0.3 / 0.1)
+        for sfac in (0.1 / 4.0, 100.0 / 36.0 / 4.0):
+            kws = dict(kw, domain=(kw["domain"][0] * sfac, kw["domain"][1] * sfac), halo=None if kw["halo"] is None else kw["halo"] * sfac,
+                       meas_pt=(im * (kw["domain"][0] * sfac / c["nx"]), jm * (kw["domain"][1] * sfac / c["ny"])))
+            g_ = c.get("geom")
+            if kws["halo"] is not None and g_ is not None and (int(kws["halo"] / (kws["domain"][0] / c["nx"])) != g_["px"] or int(kws["halo"] / (kws["domain"][1] / c["ny"])) != g_["py"]):
+                continue
+            try:
+                _, gc2, gf2 = rs.solve3(np.zeros_like(q), kws)
+                _, dc2, df2 = rs.solve3(q, kws, footprint=False, meas_pt=(0.0, 0.0))
+            except Exception as e:
+                chk.drift_note("recip (scaled lengths): %s raised %r" % (_cfg_key(c), e))
+                continue
+            cases.append((" [all lengths x %.17g]" % sfac, gc2, gf2, dc2, df2))
+        for k in [kk for kk in range(len(c["lv"]))] * 1:
+          for tag, gconc, gflx, dconc, dflx in cases:
             for name, G, D in (("flux", gflx, dflx), ("conc", gconc, dconc)):
                 lhs = float(np.sum(q * G[k]))
                 rhs = float(D[k][jm, im])
                 scale = max(float(np.sum(np.abs(q * G[k]))), abs(rhs), 1e-300)
                 if abs(lhs - rhs) > TOL[prec] * scale:
                     chk.violation(
-                        "sum(q*footprint) = %.12g but forward %s at the tower = %.12g (rel %.2e), level slot %d"
-                        % (lhs, name, rhs, abs(lhs - rhs) / scale, k),
+                        "sum(q*footprint) = %.12g but forward %s at the tower = %.12g (rel %.2e), level slot %d%s"
+                        % (lhs, name, rhs, abs(lhs - rhs) / scale, k, tag),
                         {"kind": "recip", "config": c, "profile": prof_kind, "precision": prec, "source": src_kind, "q": q.tolist()},
                         klass=dict(rs.classify(c), check="recip"),
                     )
@@ -397,6 +414,18 @@ def replay_translate(chk, rs, c, variants):
                 if not (_cmp(chk, rs, c, "recentre", "flux", fr, want_f, prec, "meas_pt at cell (%d,%d) must move that cell to the domain centre" % (dj, di), **extra)
                         and _cmp(chk, rs, c, "recentre", "conc", pr, want_p, prec, "meas_pt at cell (%d,%d) must move that cell to the domain centre" % (dj, di), **extra)):
                     return
+                # the same on lengths that are not exactly representable (1200/36-like cell sizes): whole-cell shifts whose
+                # quotient need not evaluate to the integer in floating point
+                for sfac in (1200.0 / 36.0 / (c["ax"] * rs.U), 0.1 / (c["ax"] * rs.U)):
+                    dom_s = (kw["domain"][0] * sfac, kw["domain"][1] * sfac)
+                    kws = dict(kw, domain=dom_s, halo=None if kw["halo"] is None else kw["halo"] * sfac)
+                    mp = (di * (dom_s[0] / nx), dj * (dom_s[1] / ny))
+                    _, p0s, f0s = rs.solve3(q, kws, meas_pt=(0.0, 0.0))
+                    _, prs, frs = rs.solve3(q, kws, meas_pt=mp)
+                    what = "cell size %.17g: meas_pt at cell (%d,%d) must move that cell to the domain centre" % (dom_s[0] / nx, dj, di)
+                    if not (_cmp(chk, rs, c, "recentre", "flux", frs, np.roll(f0s, (ny // 2 - dj, nx // 2 - di), axis=(1, 2)), prec, what, **extra)
+                            and _cmp(chk, rs, c, "recentre", "conc", prs, np.roll(p0s, (ny // 2 - dj, nx // 2 - di), axis=(1, 2)), prec, what, **extra)):
+                        return
         else:
             _, pm, fm = rs.solve3(q, kw)
             _, p0, f0 = rs.solve3(q, kw, meas_pt=(0.0, 0.0))
@@ -429,9 +458,46 @@ def _filtered_diff(a, b, nyqx, nyqy):
     return float(np.max(np.abs(np.fft.ifft2(d, axes=(-2, -1)))))
 
 
+def replay_symmetry_recentred(chk, rs, c, variants):
+    """dispersion mode with a measurement point (the output is re-centred on it), halo 0: mirroring the problem in x -
+    source mirrored, u negated, measurement point mirrored about the domain (x -> xmax - x) - mirrors the returned fields"""
+    rng = _rng(c, 7)
+    ny, nx = c["ny"], c["nx"]
+    prof_kind, prec, src_kind = variants[0]
+    if c["an"]:
+        prof_kind = "const_aniso" if prof_kind in ("mostm", "aniso") else "const"
+    kw = rs.solver_args(c, prof_kind, prec)
+    q = rs.source(c, src_kind, rng, j=rng.integers(ny), i=rng.integers(nx))
+    extra = dict(profile=prof_kind, precision=prec, source=src_kind, q=q.tolist())
+    ix = (-np.arange(nx)) % nx
+    iy = (-np.arange(ny)) % ny
+    for (di, dj) in ((1, 0), (0, 1), (nx - 1, 1)):
+        mp = (di * kw["domain"][0] / nx, dj * kw["domain"][1] / ny)
+        chk.case((_cfg_key(c), "recentred", di, dj))
+        _, p0, f0 = rs.solve3(q, kw, meas_pt=mp)
+        sc_f = max(float(np.max(np.abs(f0))), 1e-300)
+        sc_p = max(float(np.max(np.abs(p0))), 1e-300)
+        _, px_, fx_ = rs.solve3(q[:, ix], kw, profiles=rs.flip_profiles(kw["profiles"], su=-1.0), meas_pt=(kw["domain"][0] - mp[0], mp[1]))
+        df = _filtered_diff(fx_, f0[:, :, ix], c["nyqx"], c["nyqy"])
+        dp = _filtered_diff(px_, p0[:, :, ix], c["nyqx"], c["nyqy"])
+        if df > TOL[prec] * sc_f or dp > TOL[prec] * sc_p:
+            _viol(chk, rs, c, "mirror_x_recentred", "dispersion mode, measurement point at cell (%d,%d): the x-mirrored problem (point mirrored about the domain) is not the mirrored solution (flux %.3e, conc %.3e relative)"
+                  % (dj, di, df / sc_f, dp / sc_p), **extra)
+            return
+        _, py_, fy_ = rs.solve3(q[iy, :], kw, profiles=rs.flip_profiles(kw["profiles"], sv=-1.0), meas_pt=(mp[0], kw["domain"][1] - mp[1]))
+        df = _filtered_diff(fy_, f0[:, iy, :], c["nyqx"], c["nyqy"])
+        dp = _filtered_diff(py_, p0[:, iy, :], c["nyqx"], c["nyqy"])
+        if df > TOL[prec] * sc_f or dp > TOL[prec] * sc_p:
+            _viol(chk, rs, c, "mirror_y_recentred", "dispersion mode, measurement point at cell (%d,%d): the y-mirrored problem is not the mirrored solution (flux %.3e, conc %.3e relative)"
+                  % (dj, di, df / sc_f, dp / sc_p), **extra)
+            return
+
+
 def replay_symmetry(chk, rs, c, variants):
     if c["err"] != "none" or c["halo"] != 0 or c["xm"] or c["ym"]:
         return
+    if not c["fp"]:
+        replay_symmetry_recentred(chk, rs, c, variants)
     rng = _rng(c)
     ny, nx = c["ny"], c["nx"]
     for prof_kind, prec, src_kind in variants:
@@ -705,6 +771,41 @@ def large_grid_scenarios(chk, rs, prop, replay, t):
     return n
 
 
+def coordinate_sweep(chk, rs, t):
+    """C11 for MANY sizes and domain extents (the bounded model enumerates sizes up to 7 and exact cell sizes): the returned
+    coordinate arrays have the shape of the fields, which have the shape of the source, and x = i*dx, y = j*dy - also
+    when dx is not exactly representable (100/29, 30/13, 1/49 ...), where a coordinate built by accumulation or by
+    arange(0, xmax, dx) gains or loses a point"""
+    n = 0
+    z, prof = rs.profiles("most_u", 3)
+    sizes = list(range(3, 64)) if t == "quick" else list(range(3, 130))
+    for dom in (100.0, 30.0, 1.0, 64.0, 70.0):
+        for nx in sizes:
+            ny = 3 + (nx * 7) % 11
+            for fp in ((False,) if nx % 3 else (False, True)):
+                q = np.ones((ny, nx))
+                from bldfm.solver import steady_state_transport_solver
+
+                try:
+                    grid, conc, flx = steady_state_transport_solver(q, z, prof, (dom, dom * 0.7), [1, 2], modes=(4, 4), halo=0.0, footprint=fp, precision="double")
+                except Exception as ex:
+                    chk.violation("a %dx%d source on a %g x %g domain raised %s" % (nx, ny, dom, dom * 0.7, type(ex).__name__), {"kind": "coordinate_sweep", "nx": nx, "ny": ny, "domain": dom}, klass={"check": "coordinate_sweep"})
+                    return n
+                n += 1
+                chk.case(("coords", dom, nx, ny, fp))
+                X, Y, Z = (np.asarray(a) for a in grid)
+                sc = {"kind": "coordinate_sweep", "nx": nx, "ny": ny, "domain": [dom, dom * 0.7], "footprint": fp}
+                if np.shape(flx) != (2, ny, nx) or np.shape(conc) != (2, ny, nx) or X.shape != (2, ny, nx) or Y.shape != (2, ny, nx) or Z.shape != (2, ny, nx):
+                    chk.violation("source %dx%d on a %g m domain: fields %s, coordinates %s / %s / %s - not all of the shape of the source" % (nx, ny, dom, np.shape(flx), X.shape, Y.shape, Z.shape), sc,
+                                  klass={"check": "coordinate_shape"})
+                    return n
+                dx, dy = dom / nx, dom * 0.7 / ny
+                if np.max(np.abs(X[0, 0, :] - np.arange(nx) * dx)) > 4e-16 * dom or np.max(np.abs(Y[0, :, 0] - np.arange(ny) * dy)) > 4e-16 * dom:
+                    chk.violation("source %dx%d on a %g m domain: returned coordinates are not i*dx, j*dy" % (nx, ny, dom), sc, klass={"check": "coordinate_values"})
+                    return n
+    return n
+
+
 # ------------------------------------------------------------------------- C11 shape
 
 
@@ -925,6 +1026,8 @@ def main(prop, families=None):
     )
     if prop == "C10":
         chk.extra["large_column_scenarios"] = large_column_scenarios(chk, rs, t)
+    if prop == "C11":
+        chk.extra["coordinate_sweep"] = coordinate_sweep(chk, rs, t)
     if prop in ("C02", "C03", "C04", "C06", "C07"):
         chk.extra["large_grid_scenarios"] = large_grid_scenarios(chk, rs, prop, REPLAYS[prop], t)
     again = rs.repeat_first()
